@@ -503,8 +503,76 @@ def _auto_calls(T, fname, n, annotation, calls):
         T.check(tag + ": second-level resolution succeeds", ok, why)
 
 
+def _small_algs():
+    """the algorithm objects of `_algs` with tiny iteration caps (same classes, so the same resolution; the rules are really executed here)"""
+    from cola.linalg.decompositions.decompositions import LU, Arnoldi, Cholesky, Lanczos
+    from cola.linalg.eig.lobpcg import LOBPCG
+    from cola.linalg.eig.power_iteration import PowerIteration
+    from cola.linalg.inverse.pinv import LSTSQ
+    from cola.linalg.svd.svd import DenseSVD
+    from cola.linalg.trace.diagonal_estimation import Exact, Hutch, HutchPP
+    from cola.linalg.unary.unary import Eig, Eigh
+    return dict(Auto=cola.linalg.Auto(), CG=cola.linalg.CG(max_iters=2), GMRES=cola.linalg.GMRES(max_iters=2), LU=LU(), Cholesky=Cholesky(),
+                Lanczos=Lanczos(max_iters=2), Arnoldi=Arnoldi(max_iters=2), Eig=Eig(), Eigh=Eigh(), Exact=Exact(), Hutch=Hutch(max_iters=2),
+                HutchPP=HutchPP(), LSTSQ=LSTSQ(), DenseSVD=DenseSVD(), LOBPCG=LOBPCG(max_iters=2), PowerIteration=PowerIteration(max_iter=2))
+
+
+def case_deep(T, fname, pattern_index, first_alg=None):
+    """resolution below the first level: the selected rule is executed on a small real instance of every kind / annotation / dtype class /
+    algorithm combination of the pattern; whatever it computes, no call further down (a rule recursing into factors, an algorithm object
+    handed on to another dispatch function, an automatic choice) may end in a lookup error.  Other exceptions are the selected rule's business."""
+    from cola.backends import np_fns
+    from symx import shim
+    pattern = _patterns()[fname][pattern_index]
+    algs = _small_algs()
+    was = shim.MODE.get("symbolic")
+    shim.symbolic(False)
+    saved = (np_fns.vmap, np_fns.linear_transpose)
+    shim.functional_additions(np_fns)
+    f = dispatch.functions[fname]
+    try:
+        for tup in lattice(pattern):
+            if any(isinstance(x, tuple) and (x[1] not in ("none", "PSD") or not x[3]) for x in tup):
+                continue
+            if first_alg is not None and next(x for x in tup if isinstance(x, str)) != first_alg:
+                continue
+            if fname not in ("transpose", "adjoint", "mul", "pinv", "svd") and any(isinstance(x, tuple) and x[0] == "Concatenated" for x in tup):
+                continue  # the 4 x 2 representative: functions of square operators recurse until the interpreter's limit (seconds per call)
+            args, it = [], iter(tup)
+            for slot in pattern:
+                if slot == "op":
+                    K, an, cx, sq = next(it)
+                    op = _mk(K, cx, sq)
+                    args.append(op if an == "none" else getattr(cola, an)(op))
+                elif slot[0] == "alg":
+                    args.append(algs[next(it)])
+                else:
+                    args.append(slot[1])
+            try:
+                r = f(*args)
+                if isinstance(r, cola.ops.LinearOperator) and fname not in ("transpose", "adjoint"):
+                    r @ np.ones(r.shape[-1], dtype=np.complex128)  # lazy results dispatch when they are applied
+                ok, why = True, ""
+            except (AmbiguousLookupError, NotFoundLookupError) as e:
+                ok, why = False, f"{type(e).__name__}: " + (str(e).splitlines() or [""])[0][:140]
+            except BaseException as e:  # noqa
+                if type(e).__name__ in ("Inconclusive", "PathAbort", "CaseTimeout", "KeyboardInterrupt"):
+                    raise
+                ok, why = True, ""
+            T.check("deep:" + _label(fname, pattern, tup), ok, why)
+    finally:
+        np_fns.vmap, np_fns.linear_transpose = saved
+        shim.symbolic(was)
+
+
 def cases(tier, seed):
     out = []
+    for fname, pats in _patterns().items():
+        for i, p in enumerate(pats):
+            if sum(1 for s_ in p if s_ == "op") == 1:
+                firsts = next((list(s_[1]) for s_ in p if isinstance(s_, tuple) and s_[0] == "alg"), [None])
+                for fa in firsts:  # one case per value of the first algorithm slot (parallelism)
+                    out.append((f"deep:{fname}#{i}" + (f":{fa}" if fa else ""), case_deep, dict(fname=fname, pattern_index=i, first_alg=fa)))
     for fname in ("inv", "solve", "pinv", "svd", "eig", "slogdet", "unary", "diag"):
         for n in (6, 1001):
             for an in ("none", "PSD", "SelfAdjoint"):
